@@ -62,18 +62,20 @@ class Conn(object):
     self.marks = []                 # (s2c offset end, label) for frames the server wrote
 
   # ---- server -> client
-  def write(self, data, delay=0.0, chunks=None, label=None):
+  def write(self, data, delay=0.0, chunks=None, label=None, close_after=None):
     """Server writes ``data`` after ``delay``; ``chunks`` = list of
-    (nbytes, extra_delay) describing how the bytes trickle to the client."""
+    (nbytes, extra_delay) describing how the bytes trickle to the client.
+    ``close_after`` ('fin'|'rst'): the peer closes right behind the last byte, so
+    the data and the close are both there when the client next looks."""
     if not data:
       return
     if delay > 0:
-      g = gevent.Greenlet(self._write_now, bytes(data), chunks, label)
+      g = gevent.Greenlet(self._write_now, bytes(data), chunks, label, close_after)
       g.start_later(delay)
     else:
-      self._write_now(bytes(data), chunks, label)
+      self._write_now(bytes(data), chunks, label, close_after)
 
-  def _write_now(self, data, chunks, label):
+  def _write_now(self, data, chunks, label, close_after=None):
     if self.client_closed or self.server_closed:
       return
     self.s2c_written += len(data)
@@ -92,6 +94,8 @@ class Conn(object):
         pieces.append((data[p:], 0.0))
     else:
       pieces.append((data, 0.0))
+    if close_after:
+      pieces.append((b'', 0.0, close_after))
     self._wire.extend(pieces)
     if not self._wire_busy:
       self._wire_busy = True
@@ -100,7 +104,16 @@ class Conn(object):
   def _pump(self):
     try:
       while self._wire:
-        piece, d = self._wire.pop(0)
+        item = self._wire.pop(0)
+        piece, d = item[0], item[1]
+        if len(item) > 2:
+          # close marker: takes effect in the same instant as the bytes before it
+          if not self.server_closed and not self.client_closed:
+            self.server_closed = item[2]
+            self.net.env.emit('srv.close', conn=self.id, how=item[2], behind_data=True)
+            if self.sock is not None:
+              self.sock._wake()
+          continue
         if d > 0:
           gevent.sleep(d)
         if self.client_closed:
